@@ -217,6 +217,8 @@ func leaves() []leaf {
 		{Name: "map[string]int", Go: "map[string]int", Kinds: []string{"map<integer>"}},
 		{Name: "map[string][]string", Go: "map[string][]string", Kinds: []string{"map<array<string>>"}},
 		enum("ES", "string", "string", [][2]string{{"A", `"a"`}, {"B", `"b"`}}),
+		enum("ESe", "string", "string", [][2]string{{"None", `""`}, {"A", `"a"`}, {"B", `"b"`}}),
+		enum("EIz", "int", "integer", [][2]string{{"Zero", "0"}, {"Neg", "-1"}, {"Two", "2"}}),
 		enum("EI", "int", "integer", [][2]string{{"One", "1"}, {"Two", "2"}}),
 		enum("EI16", "int16", "integer", [][2]string{{"One", "1"}, {"Two", "2"}}),
 		enum("EF", "float64", "number", [][2]string{{"Half", "0.5"}, {"Two", "2"}}),
@@ -506,6 +508,22 @@ func contains(l []string, s string) bool {
 	return false
 }
 
+// dotImported: the model package is dot-imported, so its types are written without a qualifier.
+func (b *typeBuilder) dotImported() {
+	id := b.nextID()
+	other := "type Dot" + id + " struct {\n\tZ string `json:\"z\"`\n}\n\ntype DotKind" + id + " string\n\nconst (\n\tDotKind" + id + "A DotKind" + id + " = \"a\"\n)\n"
+	decl := "type Holder" + id + " struct {\n\tD Dot" + id + " `json:\"d\"`\n\tK []DotKind" + id + " `json:\"k\"`\n}\n"
+	ctl := scen.Controller{Name: "C" + id, Pkg: id, Prefix: scen.S("/" + id), Tag: scen.S("T" + id), Methods: []scen.Method{usageMethod(id, "return", "Holder"+id)}}
+	u := scen.Unit{Controllers: []scen.Controller{ctl}, Decls: map[string]string{id: decl, id + "/dotted" + id: other},
+		Imports: map[string][]string{id: {". " + scen.ModulePath + "/" + id + "/dotted" + id}}}
+	b.cases = append(b.cases, scen.Case{ID: id, Unit: u, Features: map[string]string{"family": "type-cross-package", "import": "dot"}, Desc: map[string]any{"decls": decl, "other": other}})
+	b.exp[id] = TypeExpect{Schemas: map[string]ExpSchema{
+		"Holder" + id:  {Kind: "struct", Props: map[string][]string{"d": {"$ref:Dot" + id}, "k": {"array<$ref:DotKind" + id + ">"}}},
+		"Dot" + id:     {Kind: "struct", Props: map[string][]string{"z": {"string"}}},
+		"DotKind" + id: {Kind: "enum", Values: []string{"a"}, Base: "string"},
+	}}
+}
+
 // Types builds the C07 family.
 func Types(tier string) (Family, map[string]TypeExpect, []MetaPair) {
 	b := &typeBuilder{exp: map[string]TypeExpect{}}
@@ -513,6 +531,7 @@ func Types(tier string) (Family, map[string]TypeExpect, []MetaPair) {
 	b.leafCases(tier)
 	b.composites()
 	b.fieldDocs()
+	b.dotImported()
 	pairs := b.metamorphic(tier)
 	b.crossPackage()
 	return Family{Name: "types", Cases: b.cases, BaseCfg: DefaultCfg, PackSize: 60}, b.exp, pairs
